@@ -14,7 +14,7 @@
        code only; the FIFO theorems for it are the reservation-queue ones under "no reuse"). *)
 From Coq Require Import List Bool Arith ZArith Permutation.
 Import ListNotations.
-From GV Require Import C04.Model C04.Contract C04.Heap C04.Seq C04.Prio C04.ConcPrio C04.ConcFair.
+From GV Require Import C04.Model C04.Contract C04.Heap C04.Seq C04.Ring C04.Prio C04.ConcPrio C04.ConcFair.
 
 (* ---------------------------------------------------------------- FIFO, any interleaving *)
 
@@ -54,6 +54,20 @@ Proof. intros Msg dec M VC s. exact (@empty_report_all_complete Msg dec M VC s).
 Theorem C04_unbounded_refines_fifo : forall ops,
   mrun unb_model (minit unb_model) ops = mrun (fifo_spec None false) (minit (fifo_spec None false)) ops.
 Proof. exact unb_refines_fifo. Qed.
+
+(* NonBlockingBoundedMailbox: the Vyukov ring (cells with sequence numbers, masked positions) with
+   2^k cells is a FIFO queue of capacity 2^k — every k >= 1, every operation sequence; ErrMailboxFull
+   exactly when 2^k messages are held *)
+Theorem C04_ring_refines_bounded_fifo : forall cap k, (1 <= k)%Z -> nextPowerOfTwo cap = (2 ^ k)%Z -> forall ops,
+  mrun (nbb_model cap) (minit (nbb_model cap)) ops =
+  mrun (fifo_spec (Some (2 ^ k)%Z) false) (minit (fifo_spec (Some (2 ^ k)%Z) false)) ops.
+Proof. exact nbb_refines_fifo. Qed.
+
+(* the documented rounding: least power of two >= max(capacity, 2) — finite sweep, bound in the
+   statement (larger capacities: differential test against the Go function on every run) *)
+Theorem C04_nextPowerOfTwo_partial : forall n, (0 <= n <= 4097)%Z ->
+  nextPowerOfTwo n = (2 ^ Z.log2_up (Z.max n 2))%Z /\ (Z.max n 2 <= nextPowerOfTwo n < 2 * Z.max n 2)%Z.
+Proof. exact nextPowerOfTwo_rounds. Qed.
 
 (* the binary heap shared by the four priority mailboxes (container/heap and stableHeap run the same
    up/down loops): for every strict weak order, push keeps the heap order and the elements; pop
@@ -143,6 +157,8 @@ Print Assumptions C04_fifo_capacity.
 Print Assumptions C04_fifo_empty_report_refuted.
 Print Assumptions C04_empty_report_partial.
 Print Assumptions C04_unbounded_refines_fifo.
+Print Assumptions C04_ring_refines_bounded_fifo.
+Print Assumptions C04_nextPowerOfTwo_partial.
 Print Assumptions C04_heap_push.
 Print Assumptions C04_heap_pop_min.
 Print Assumptions C04_stable_priority_refines.
